@@ -41,9 +41,10 @@ type User struct {
 	// Arbitrary holds only the application's declared profile keys (see Storer.ProfileKeys).
 	Arbitrary map[string]string
 
-	onArbitrary func(map[string]string)
-	profileKeys []string
-	persistAll  bool // an application that stores the whole map it is handed (it relies on the whitelist)
+	onArbitrary   func(map[string]string)
+	profileKeys   []string
+	persistAll    bool // an application that stores the whole map it is handed (it relies on the whitelist)
+	separateEmail bool // the e-mail address is a profile field of its own, not the primary identifier
 }
 
 // Clone returns a deep copy.
@@ -132,7 +133,7 @@ func itoa(i int) string {
 func (u *User) GetPID() string { return u.PID }
 func (u *User) PutPID(s string) {
 	u.PID = s
-	if u.Email == "" {
+	if u.Email == "" && !u.separateEmail {
 		u.Email = s // as in authboss-sample: the primary identifier is the e-mail address
 	}
 }
